@@ -102,6 +102,37 @@ Proof.
   - vm_compute. discriminate.
 Qed.
 
+(* THE DATA-LESS ENTRY.  _register.inner(self, data=None, ...) sorts the data on entry only when it is
+   given, but un-sorts the baseline on exit whenever the decorator's skip_sorting is off (wrapperN;
+   the two conditions are read from the source by the translator, see C02_flow_table).  For a
+   method that may be called without data (interp_pts builds its baseline from the sorted self.x)
+   the permuted call still returns the permuted baseline and sort_keys entries, with or without
+   data. *)
+Theorem C02_wrapper_nodata_equivariant :
+  forall (D E : Type) (d0 : D) (e0 : E)
+         (body : list Z -> option (list D) -> option (list D) -> list D * list (list E)),
+    (forall xs ys ws,
+        match ys with None => True | Some y' => length y' = length xs end ->
+        match ws with None => True | Some w' => length w' = length xs end ->
+        length (fst (body xs ys ws)) = length xs /\
+        Forall (fun p => length p = length xs) (snd (body xs ys ws))) ->
+  forall (x : list Z) (y : option (list D)) (w : option (list D)) (pi : list nat),
+    NoDup x -> match y with None => True | Some y' => length y' = length x end ->
+    match w with None => True | Some w' => length w' = length x end ->
+    Permutation pi (seq 0 (length x)) ->
+    wrapperN D E d0 e0 body false (gather 0%Z x pi) (option_map (fun y' => gather d0 y' pi) y)
+             (option_map (fun w' => gather d0 w' pi) w)
+    = permute_outG D E d0 e0 pi (wrapperN D E d0 e0 body false x y w).
+Proof.
+  intros D E d0 e0 body H x y w pi. exact (wrapperN_equivariant D E d0 e0 body H x y w pi).
+Qed.
+Print Assumptions C02_wrapper_nodata_equivariant.
+
+(* without data the baseline of a body that returns the (sorted) x itself comes back in the SUPPLIED order *)
+Example C02_wrapper_nodata_nonvacuous :
+  wrapperN Z Z 0%Z 0%Z (fun xs _ _ => (xs, [])) false [30; 10; 20]%Z None None = ([30; 10; 20]%Z, []).
+Proof. vm_compute. reflexivity. Qed.
+
 (* the wrappers with entries of the element type of the baseline (used by the optimizer models)
    are the instances E = D *)
 Theorem C02_wrapper_instances :
@@ -314,7 +345,8 @@ Print Assumptions C02_flow_sound.
    per-point key against sort_keys) passes the check; the _setup_* functions sort their weights
    exactly once under the guard `sort order is not None and weights is not None`. *)
 Theorem C02_flow_table :
-  forallb flow_ok gen_rows = true /\ setups_ok gen_setups = true /\ (100 <=? List.length gen_rows)%nat = true.
+  forallb flow_ok gen_rows = true /\ setups_ok gen_setups = true /\ (100 <=? List.length gen_rows)%nat = true /\
+  wrapper_io_ok gen_wrapper_io gen_data_optional = true.
 Proof. vm_compute. repeat split. Qed.
 Print Assumptions C02_flow_table.
 
